@@ -617,6 +617,36 @@ class FlattenLoopNormaliser(ast.NodeTransformer):
         return node
 
 
+    def visit_Expr(self, node: ast.Expr):
+        # `yield from chain.from_iterable(map(F, E))` (lazy, one F(x) at a
+        # time, in order) is `for x in E: yield from F(x)`
+        self.generic_visit(node)
+        v = node.value
+        if isinstance(v, ast.YieldFrom) and isinstance(v.value, ast.Call):
+            c = v.value
+            fn = ast.unparse(c.func)
+            if fn in ("itertools.chain.from_iterable", "chain.from_iterable") \
+                    and len(c.args) == 1 and not c.keywords and isinstance(
+                        c.args[0], ast.Call) and isinstance(
+                            c.args[0].func, ast.Name) and \
+                    c.args[0].func.id == "map" and len(c.args[0].args) == 2 \
+                    and not c.args[0].keywords and isinstance(
+                        c.args[0].args[0], (ast.Name, ast.Attribute)):
+                f_, e_ = c.args[0].args
+                self.log.append(f"L{node.lineno}: yield from chain."
+                                "from_iterable(map(F, E)) read as a loop")
+                x = ast.Name(id="_chained", ctx=ast.Load())
+                loop = ast.For(
+                    target=ast.Name(id="_chained", ctx=ast.Store()), iter=e_,
+                    body=[ast.Expr(value=ast.YieldFrom(value=ast.Call(
+                        func=f_, args=[x], keywords=[])))],
+                    orelse=[], type_comment=None)
+                ast.copy_location(loop, node)
+                ast.fix_missing_locations(loop)
+                return loop
+        return node
+
+
 class Dispatch:
     """One literal dispatch: `match s: case "a": ...` or the equivalent
     if/elif chain. arms: list of (literals, body); default: body or None."""
